@@ -369,9 +369,9 @@ theorem i4a_step_assign (f : Sem) (j : Job) (cl : Cluster) (s s' : Sys) (a : Asg
         have hm := (h4.keys _ _).mp htx.2.2
         rw [hm] at k'; cases k'
     -- the environment after the commands
-    have henv : applyCmds j cl s.env (actCmds a prep) =
+    have henv : applyCmds j cl s.env (actCmds j a prep) =
         applyCmd j cl (applyCmds j cl s.env ((prep.filter (fun p => p.2 != a.worker.host)).map
-          (fun p => Cmd.transmit p.1 p.2 a.worker.host))) (.taskSeq a.worker a.task) := by
+          (fun p => Cmd.transmit p.1 p.2 a.worker.host))) (.taskSeq a.worker a.task (asgOutputs j a.task)) := by
       simp [applyCmds, actCmds, List.foldl_append]
     have hsrcp : ∀ p, p ∈ prep.filter (fun p => p.2 != a.worker.host) → (s.env.present p.2 p.1).isSome = true := by
       intro p hm
@@ -382,14 +382,14 @@ theorem i4a_step_assign (f : Sem) (j : Job) (cl : Cluster) (s s' : Sys) (a : Asg
     generalize hE : applyCmds j cl s.env ((prep.filter (fun p => p.2 != a.worker.host)).map
           (fun p => Cmd.transmit p.1 p.2 a.worker.host)) = e1 at henv t1 t2 t3 t4 t5 t6 t7 t8
     rw [henv]
-    have q1 : (applyCmd j cl e1 (.taskSeq a.worker a.task)).present = s.env.present := by simp [applyCmd, t1]
-    have q2 : (applyCmd j cl e1 (.taskSeq a.worker a.task)).queued = s.env.queued ++ [(a.worker, a.task)] := by
+    have q1 : (applyCmd j cl e1 (.taskSeq a.worker a.task (asgOutputs j a.task))).present = s.env.present := by simp [applyCmd, t1]
+    have q2 : (applyCmd j cl e1 (.taskSeq a.worker a.task (asgOutputs j a.task))).queued = s.env.queued ++ [(a.worker, a.task)] := by
       simp [applyCmd, t2]
-    have q3 : (applyCmd j cl e1 (.taskSeq a.worker a.task)).pending = s.env.pending := by simp [applyCmd, t3]
-    have q4 : (applyCmd j cl e1 (.taskSeq a.worker a.task)).ran = s.env.ran := by simp [applyCmd, t4]
-    have q5 : (applyCmd j cl e1 (.taskSeq a.worker a.task)).produced = s.env.produced := by simp [applyCmd, t5]
-    have q6 : (applyCmd j cl e1 (.taskSeq a.worker a.task)).purged = s.env.purged := by simp [applyCmd, t6]
-    have q8 : (applyCmd j cl e1 (.taskSeq a.worker a.task)).outstanding = s.env.outstanding ++
+    have q3 : (applyCmd j cl e1 (.taskSeq a.worker a.task (asgOutputs j a.task))).pending = s.env.pending := by simp [applyCmd, t3]
+    have q4 : (applyCmd j cl e1 (.taskSeq a.worker a.task (asgOutputs j a.task))).ran = s.env.ran := by simp [applyCmd, t4]
+    have q5 : (applyCmd j cl e1 (.taskSeq a.worker a.task (asgOutputs j a.task))).produced = s.env.produced := by simp [applyCmd, t5]
+    have q6 : (applyCmd j cl e1 (.taskSeq a.worker a.task (asgOutputs j a.task))).purged = s.env.purged := by simp [applyCmd, t6]
+    have q8 : (applyCmd j cl e1 (.taskSeq a.worker a.task (asgOutputs j a.task))).outstanding = s.env.outstanding ++
         (prep.filter (fun p => p.2 != a.worker.host)).map (fun p => IO.transmit p.1 p.2 a.worker.host) := by
       simp [applyCmd, t8]
     have hnewT : ∀ ds src, (ds, src) ∈ prep → src ≠ a.worker.host →
@@ -412,7 +412,7 @@ theorem i4a_step_assign (f : Sem) (j : Job) (cl : Cluster) (s s' : Sys) (a : Asg
       · obtain ⟨src, k1, k2, _⟩ := hsrc ds htx
         exact Or.inr (i4a_inbound_new e ds src _ (by rw [eo]; exact hnewT ds src k1 k2))
     -- the monitors of the task sequence command
-    have hviol : ∀ m, m ∈ (applyCmd j cl e1 (.taskSeq a.worker a.task)).viol → m ∈ s.env.viol ∨
+    have hviol : ∀ m, m ∈ (applyCmd j cl e1 (.taskSeq a.worker a.task (asgOutputs j a.task))).viol → m ∈ s.env.viol ∨
         m = "C02 unknown-worker" ∨ m = "C02 busy-worker" ∨ m = "C02 double-dispatch" ∨ m = "C02 gpu" ∨
         m = "C02 input-not-produced" := by
       intro m hm
@@ -450,7 +450,7 @@ theorem i4a_step_assign (f : Sem) (j : Job) (cl : Cluster) (s s' : Sys) (a : Asg
       · cases k
     have hnv : ∀ m, m ∉ s.env.viol → m ≠ "C02 unknown-worker" → m ≠ "C02 busy-worker" →
         m ≠ "C02 double-dispatch" → m ≠ "C02 gpu" → m ≠ "C02 input-not-produced" →
-        m ∉ (applyCmd j cl e1 (.taskSeq a.worker a.task)).viol := by
+        m ∉ (applyCmd j cl e1 (.taskSeq a.worker a.task (asgOutputs j a.task))).viol := by
       intro m k0 k1 k2 k3 k4 k5 hm
       rcases hviol m hm with k | k | k | k | k | k
       · exact k0 k
@@ -460,7 +460,7 @@ theorem i4a_step_assign (f : Sem) (j : Job) (cl : Cluster) (s s' : Sys) (a : Asg
       · exact k4 k
       · exact k5 k
     have hfl : ∀ w t, Sys.inFlight
-          { s with ctl := c2, env := applyCmd j cl e1 (.taskSeq a.worker a.task), todo := s.todo ++ [(a, prep)] }
+          { s with ctl := c2, env := applyCmd j cl e1 (.taskSeq a.worker a.task (asgOutputs j a.task)), todo := s.todo ++ [(a, prep)] }
           w t ↔ (s.inFlight w t ∨ (w, t) = (a.worker, a.task)) := by
       intro w t
       simp only [Sys.inFlight, Sys.todoPairs, e_ong, List.map_append, List.map_cons, List.map_nil, List.mem_append,
